@@ -57,6 +57,7 @@ DEVIATIONS = collections.OrderedDict([
     ("LateLockTrustsReply", "C11/FinalizeSound/late/rsig-by-other-key"),
     ("StrippedUnnoticed", "C11/FinalizeSound/late/proof-stripped"),
     ("LockTrustsSlate", "C11/FinalizeSound/S2/rsig-by-other-key"),
+    ("SenderKeyFromActive", "C11/ExportVerifies/verify-err:proof"),
 ])
 TIERS = {"quick": "PaymentProof_quick.cfg", "thorough": "PaymentProof_thorough.cfg"}
 CHUNK = 2500          # trace lines per TLC trace-validation process
@@ -193,7 +194,7 @@ def self_test(nd, cfgs, d):
     by_b = collections.OrderedDict()
     for e in evs:
         by_b.setdefault(e["b"], []).append(e)
-    honest = next((v for v in by_b.values() if any(e["ev"] == "verify" and e["res"] == "ok" for e in v)
+    honest = next((v for v in by_b.values() if any(e["ev"] == "verify" and e["res"] == "ok" and e.get("a") == "none" for e in v)
                    and any(e["ev"] == "verify" and e["res"] == "err:proof" and e.get("onchain") and e.get("a") in ("amt_plus", "rs_third") for e in v)), None)
     refused = next((v for v in by_b.values() if v[0]["c"]["tam"] not in ("none", "raddr", "saddr") and
                     any(e["ev"] == "finalize" and e["res"] == "err:proof" for e in v)), None)
@@ -276,12 +277,6 @@ def run(tier, replay_path, t0):
     log("  %d cases (%d steps) executed on the real code and validated (%.0fs): %d monitor failures, %d Layer-M mismatches" % (
         len(cases), nlines - len(cases), time.time() - t1, len(viols), len(nonconfs)))
     log("  witnesses on the validated traces: %s" % json.dumps(tstat))
-    if not replay_path:
-        need = ["finalize_ok", "forgery_refused", "export_ok", "verify_ok", "mutant_refused", "offchain_refused"]
-        dead = [k for k in need if not tstat.get(k)]
-        if dead:
-            raise ToolError("vacuous run: no observed step of kind %s" % dead)
-
     # model counter-examples vs. the real code
     real = collections.defaultdict(set)
     for v in viols:
@@ -300,7 +295,12 @@ def run(tier, replay_path, t0):
     known, new = classify(PROP, keys)
 
     selfres = {}
-    if not replay_path:
+    if not replay_path and not new:
+        # vacuity: every kind of step the monitors speak about was observed (a red run is reported as such instead)
+        need = ["finalize_ok", "forgery_refused", "export_ok", "verify_ok", "mutant_refused", "offchain_refused"]
+        dead = [k for k in need if not tstat.get(k)]
+        if dead:
+            raise ToolError("vacuous run: no observed step of kind %s" % dead)
         t2 = time.time()
         selfres = self_test(nd, cfgs, d)
         log("  binding self-test: corrupted traces rejected (%.0fs): %s" % (time.time() - t2, json.dumps(selfres)))
